@@ -54,7 +54,7 @@ def run_scenario(chk, sc, cfgseed, ndims=3, payload="wild", flavour="sched", wor
     from amr_kitchen.taste import Taster
     import random
     rng = random.Random(cfgseed)
-    cfg = gamma.Config.draw(rng, ndims=ndims, payload=payload)
+    cfg = gamma.Config.draw(rng, ndims=ndims, payload=payload, numfmt="g6" if cfgseed % 4 == 0 else "repr")
     # concrete field names (prefix pairs, parentheses, blanks ...): the scenario's names are abstract
     nm = gamma.names_map(cfgseed, list(sc["fields"]))
     ren = lambda names: [n if n == "all" else nm[n] for n in names]
